@@ -95,6 +95,8 @@ package jsonclient
 //@ at s2 assert [retry-after-date-honoured] at.called && at.res1 != nil && tp.called && tp.res1 == nil ==> s2.arg0 != nil && *s2.arg0 == tu.res
 //@ at s2 assert [no-retry-after-no-override] hg.res == "" || (at.res1 != nil && tp.res1 != nil) ==> s2.arg0 == nil
 //@ at wb assert [retry-only-after-retryable-outcomes] pp.res2 != nil || status == 408 || status == 429 || status == 503
+//@ at wb assert [429-and-503-retries-apply-the-server-pacing-first] pp.res2 == nil && (status == 429 || status == 503) ==> s2.called
+//@ at wb assert [failed-attempts-back-off-first] pp.res2 != nil ==> s1.called
 //@ at wb assert [408-retries-without-touching-the-backoff] pp.res2 == nil && status == 408 ==> !s1.called && !s2.called
 //@ at wb assert [context-errors-are-not-retried] pp.res2 != nil ==> pp.res2 != context.Canceled && pp.res2 != context.DeadlineExceeded
 
